@@ -554,3 +554,19 @@ Definition stop_quote (q : N) (s : str) : bool :=
   | c :: _ => c =? q
   | [] => false
   end.
+
+(* ---- the other two callers of the binding parser ---- *)
+(* `data="{{ ... }}"` of <template is> (Attribute::parse_optional_value_as_object): one binding in
+   template-data mode that must end at the closing quote; anything else gives the empty value.
+   None stands for the empty static value *)
+Definition data_attr_value (q : N) (s : str) : option expr :=
+  if starts_with (lit "{{") s then
+    let '(v, rest) := binding true (skipn 2 s) in
+    match rest with
+    | [] => v
+    | c :: _ => if c =? q then v else None
+    end
+  else None.
+
+(* an unquoted `name={{ ... }}` *)
+Definition unquoted_attr_value (s : str) : option expr := fst (binding false (skipn 2 s)).
